@@ -18,13 +18,16 @@ RULES = {
     'C09/unique-stream': 'a request never arrives on a (connection, stream) that is still outstanding at the node (received, not answered - dropped ones included)',
     'C09/own-response': 'rows delivered to a request carry that request id',
     'C09/max-id': '0 <= stream id <= max_request_id',
+    'C09/delivered': 'a response the node sent for a request on a connection no fault touched is delivered to that request: the request is '
+                     'not reported timed out more than 0.3 s after the node answered it',
     'C09/drain': 'once every received request was answered (no fault): in_flight == 0, no orphaned ids, request_ids = 0..highest without duplicates',
 }
 WORLD_INFO = {'real': ['Cluster, Session, ControlConnection, ResponseFuture (_on_timeout, _query, _set_result)', 'HostConnection',
                        'Connection/LibevConnection/LibevLoop/TimerManager'],
               'stub': ['libev C binding', 'sockets/TCP', 'ThreadPoolExecutor (SimExecutor)', 'fake Cassandra node (independent codec)']}
 ASSUMPTIONS = ['orphaned_threshold is set high: connection replacement is C13']
-REQUIRED_PROBES = ['late_response_after_timeout', 'client_timeout', 'id_space_grew', 'dropped_request']
+REQUIRED_PROBES = ['late_response_after_timeout', 'client_timeout', 'id_space_grew', 'dropped_request', 'same_host_retry',
+                   'retried_request_timed_out', 'send_refused_busy', 'ctl_wait_timed_out_polls', 'ctl_connection_survived']
 
 
 def prepare():
@@ -33,8 +36,52 @@ def prepare():
 
 
 def gen_plan(rng, tier):
+    k = rng.random()
+    if k < 0.2:
+        return gen_plan_retry(rng)
+    if k < 0.3:
+        return gen_plan_busy(rng)
+    if k < 0.4:
+        return gen_plan_ctl(rng)
+    return gen_plan_pool(rng)
+
+
+ERRS = ['read_timeout', 'write_timeout', 'unavailable', 'overloaded', 'server_error']
+
+
+def gen_plan_retry(rng):
+    """Same-host retries: an error reply frees the stream, the retry takes another one; the request may then time out."""
+    p = gen_plan_pool(rng, mif=rng.choice([2, 3, 4, 8]))
+    p['mode'] = 'retry'
+    p['fault'] = None
+    for r in p['requests']:
+        if rng.random() < 0.45:
+            pre = [{'kind': 'error', 'error': rng.choice(ERRS), 'delay': rng.choice([0.001, 0.005, 0.02])}
+                   for _ in range(rng.choice([1, 1, 2]))]
+            r['script_seq'] = pre + [dict(r['script'])]
+        else:
+            r['timeout'] = rng.choice([1.0, 2.0, 3.0])
+            r['script'] = {'kind': 'ok', 'delay': rng.choice([0.01, 0.2, 0.5, 0.9])}
+    return p
+
+
+def gen_plan_busy(rng):
+    """Socket back-pressure: the node stops reading for a while, the send buffer fills up, sends are refused as busy."""
+    p = gen_plan_pool(rng, mif=rng.choice([4, 8, 16]))
+    p['mode'] = 'busy'
+    p['fault'] = None
+    p['busy'] = {'at': rng.choice([0.0, 0.01, 0.05]), 'len': rng.choice([0.05, 0.2, 0.5]), 'room': rng.choice([0, 20, 100])}
+    for r in p['requests']:
+        if r['script']['kind'] == 'drop':
+            r['script'] = {'kind': 'ok', 'delay': 0.01}
+        r['think'] = rng.choice([0.001, 0.01, 0.03])
+    return p
+
+
+def gen_plan_pool(rng, mif=None):
     version = rng.choice([3, 4, 4, 5])
-    mif = 310 if rng.random() < 0.08 else rng.choice([2, 3, 4, 8, 16])
+    if mif is None:
+        mif = 310 if rng.random() < 0.08 else rng.choice([2, 3, 4, 8, 16])
     nthreads = rng.choice([1, 2, 3, 4])
     n = rng.randrange(3, 31) if mif != 310 else rng.choice([305, 320])
     drain = rng.random() < 0.6
@@ -58,13 +105,122 @@ def gen_plan(rng, tier):
     if not drain and rng.random() < 0.3:
         fault = {'kind': 'rst', 'at': rng.choice([0.01, 0.05, 0.2, 0.5])}
     spec = default_cluster_spec(1, versions=(3, 4, 5))
-    return {'cluster': spec, 'version': version, 'knobs': {'max_in_flight': mif, 'orphaned_threshold': 100000},
+    return {'cluster': spec, 'version': version, 'knobs': {'max_in_flight': mif, 'orphaned_threshold': 100000}, 'mode': 'pool',
             'nthreads': nthreads, 'requests': reqs, 'fault': fault, 'strategy': gen_strategy(rng),
             'line_p': rng.choice([0, 0, 0.005, 0.05]), 'points': rng.choice([0, 2, 4]),
             'time_jump_p': rng.choice([0, 0, 0.05])}
 
 
+def check_drained(V, conn, what):
+    """C09/drain on one live connection whose requests have all been answered."""
+    if conn.is_closed or conn.is_defunct:
+        return
+    ids = list(conn.request_ids)
+    if conn.in_flight != 0:
+        V.add('C09/drain', 'in-flight-nonzero', 'after every request was answered in_flight=%d (orphaned=%r)'
+              % (conn.in_flight, sorted(conn.orphaned_request_ids)[:5]))
+    elif conn.orphaned_request_ids:
+        V.add('C09/drain', 'orphans-left', 'orphaned ids left: %r' % sorted(conn.orphaned_request_ids)[:8])
+    elif len(set(ids)) != len(ids):
+        V.add('C09/drain', 'duplicate-free-ids', 'free id list of the %s has duplicates: %r' %
+              (what, sorted(x for x in set(ids) if ids.count(x) > 1)[:8]))
+    elif set(ids) != set(range(conn.highest_request_id + 1)):
+        V.add('C09/drain', 'ids-missing', 'free ids %d of %d (%s)' % (len(ids), conn.highest_request_id + 1, what))
+    elif conn._requests:
+        V.add('C09/drain', 'handlers-left', '%d handler(s) still registered on the %s: streams %r'
+              % (len(conn._requests), what, sorted(conn._requests)[:8]))
+
+
+def gen_plan_ctl(rng):
+    """Control connection: blocking wait_for_responses() calls that time out while the node answers late."""
+    n = rng.choice([2, 3])
+    spec = default_cluster_spec(n, versions=(3, 4))
+    return {'cluster': spec, 'version': rng.choice([3, 4]), 'mode': 'ctl', 'knobs': {}, 'requests': [], 'nthreads': 1, 'fault': None,
+            'W': rng.choice([0.6, 1.0, 2.0]), 'ctl_timeout': rng.choice([0.1, 0.2, 0.4]), 'slow_lat': rng.choice([[0.05, 0.3], [0.15, 0.6], [0.3, 0.9]]),
+            'rounds': rng.choice([1, 2, 3]), 'after': rng.choice([1, 3, 8]),
+            'strategy': gen_strategy(rng), 'line_p': 0, 'points': 0, 'time_jump_p': rng.choice([0, 0, 0.05])}
+
+
+def run_ctl(plan, seed, choices=None):
+    import uuid
+    w = FullWorld(plan, seed, choices, horizon=200.0, step_cap=3000000)
+    sim, fc = w.sim, w.fc
+    V = Violations()
+    st = {'timeouts': 0, 'connect_error': None, 'ctl': None, 'outcomes': []}
+    fast = fc.sys_lat
+
+    def main():
+        try:
+            cluster = w.make_cluster(protocol_version=plan['version'], idle_heartbeat_interval=0, control_connection_timeout=plan['ctl_timeout'],
+                                     max_schema_agreement_wait=plan['W'], schema_event_refresh_window=-1, topology_event_refresh_window=-1,
+                                     status_event_refresh_window=-1)
+            fc.sys_lat = (0.0005, 0.004)
+            session = cluster.connect(wait_for_all_pools=True)
+        except Exception as e:
+            st['connect_error'] = repr(e)
+            return
+        w.session = session
+        st['ctl'] = cluster.control_connection._connection
+        for k in range(plan['rounds']):
+            # node 1 lags behind: every poll disagrees, so the wait keeps polling until W is used up
+            fc.nodes[1].schema_version = uuid.UUID(int=500 + k)
+            fc.sys_lat = tuple(plan['slow_lat'])
+            try:
+                cluster.refresh_schema_metadata(max_schema_agreement_wait=plan['W'])
+                st['outcomes'].append('ok')
+            except Exception as e:
+                st['outcomes'].append(type(e).__name__)
+            fc.sys_lat = fast
+            fc.nodes[1].schema_version = fc.nodes[0].schema_version
+            w.sleep(1.5)                    # the late answers arrive
+        for k in range(plan['after']):
+            try:
+                cluster.refresh_schema_metadata(max_schema_agreement_wait=plan['W'])
+            except Exception as e:
+                st['outcomes'].append('after:' + type(e).__name__)
+            w.sleep(0.05)
+        st['ctl_end'] = cluster.control_connection._connection
+
+    w.spawn(main, 'main')
+    status = w.run_until_users_done()
+    if st['connect_error']:
+        raise HarnessError('connect failed: %s' % st['connect_error'])
+    w.settle(3.0)
+    w.drain()
+    from props.common import LOGS
+    timeouts = sum(1 for x in LOGS if 'schema agreement check' in x[2] and 'Timed out' in x[2])
+    polls = sum(1 for e in fc.nodes[0].log if e.get('sys') == 'system.local')
+    if st['outcomes']:
+        sim.probe('ctl_wait_rounds', len(st['outcomes']))
+    same = st['ctl'] is not None and st['ctl'] is st.get('ctl_end')
+    if same:
+        sim.probe('ctl_connection_survived')
+    V.check('C09/unique-stream', sum(len(n.log) for n in fc.nodes))
+    if fc.stream_reuse:
+        seq, nidx, label, s_, old, new = fc.stream_reuse[0]
+        V.add('C09/unique-stream', 'stream-reused-while-outstanding', 'a request arrived on %s stream %d while %r was still outstanding there' % (label, s_, old))
+    late = 0
+    if status == 'done':
+        V.check('C09/drain')
+        for c in list(seams.ALL_CONNS):
+            if c.is_closed or c.is_defunct:
+                continue
+            if getattr(c, 'is_control_connection', False):
+                check_drained(V, c, 'control connection')
+                late = max(late, 1 if c.highest_request_id >= 0 else 0)
+    for cr in sim.crashes:
+        V.add('C09/drain', 'thread-exception', 'thread %s died: %s' % (cr[0], cr[1]))
+    nt = any(o != 'ok' for o in st['outcomes']) and same
+    if nt:
+        sim.probe('ctl_wait_timed_out_polls')
+    return {'violations': V.items, 'rules_checked': V.checked, 'nontrivial': bool(nt),
+            'faults': dict(w.net.fault_counts), 'states': [w.abstract_state()],
+            'summary': {'status': status, 'outcomes': st['outcomes'], 'polls': polls, 'same_conn': same}, 'stratum': 'ctl'}
+
+
 def run_plan(plan, seed, choices=None):
+    if plan.get('mode') == 'ctl':
+        return run_ctl(plan, seed, choices)
     w = FullWorld(plan, seed, choices, horizon=120.0, step_cap=2000000)
     sim = w.sim
     V = Violations()
@@ -76,13 +232,30 @@ def run_plan(plan, seed, choices=None):
                                     cpool.HostConnection.return_connection],
                                    p=plan['line_p'], points=plan['points'], est_lines=60 * len(plan['requests']))
     for i, r in enumerate(plan['requests']):
-        w.fc.scripts[i] = [dict(r['script'])]
+        w.fc.scripts[i] = [dict(b) for b in r['script_seq']] if r.get('script_seq') else [dict(r['script'])]
+    mode = plan.get('mode', 'pool')
     obs = {}
+
+    class AlwaysRetry(w.cpol.RetryPolicy):
+        """RETRY on the same host for every server error (the node is the only host)."""
+
+        def on_read_timeout(self, *a, **k):
+            return (self.RETRY, None)
+
+        def on_write_timeout(self, *a, **k):
+            return (self.RETRY, None)
+
+        def on_unavailable(self, *a, **k):
+            return (self.RETRY, None)
+
+        def on_request_error(self, *a, **k):
+            return (self.RETRY, None)
     st = {'ready': False, 'done': 0, 'conn': None, 'connect_error': None}
 
     def main():
         try:
-            cluster = w.make_cluster(protocol_version=plan['version'], idle_heartbeat_interval=0)
+            cluster = w.make_cluster(protocol_version=plan['version'], idle_heartbeat_interval=0,
+                                     profile=({'retry': AlwaysRetry()} if mode == 'retry' else None))
             session = cluster.connect(wait_for_all_pools=True)
         except Exception as e:
             st['connect_error'] = repr(e)
@@ -92,6 +265,25 @@ def run_plan(plan, seed, choices=None):
         st['conn'] = pools[0]._connection if pools else None
         if plan['fault']:
             sim.at(plan['fault']['at'], lambda: w.fc.rst_conns(0, 'pool'), 'fault rst pool conns')
+        if mode == 'busy':
+            b = plan['busy']
+
+            def choke():
+                for nc in w.fc.nodes[0].conns:
+                    if not nc.events and not nc.closed:
+                        nc.conn.sock.room_left = b['room']
+                        nc.conn.sock.force_eagain = True
+                        st.setdefault('choked', []).append(nc.conn.sock)
+                sim.rec('fault', 'send buffer full')
+                w.net.count('send_buffer_full')
+
+            def unchoke():
+                for sk in st.get('choked', []):
+                    sk.force_eagain = False
+                    sk._notify()
+                sim.rec('fault', 'send buffer drained')
+            sim.at(b['at'], choke, 'choke')
+            sim.at(b['at'] + b['len'], unchoke, 'unchoke')
         ts = [w.spawn(user, 'user%d' % t, t) for t in range(plan['nthreads'])]
         for t in ts:
             t.join()
@@ -159,26 +351,44 @@ def run_plan(plan, seed, choices=None):
     conn = st['conn']
     if conn is not None and conn.highest_request_id >= 300:
         sim.probe('id_space_grew')
+    dropped += sum(1 for r in plan['requests'] for b in (r.get('script_seq') or []) if b['kind'] == 'drop' and b is not r.get('script'))
+    # ---- delivered: a response the node sent on a healthy connection reaches the request it belongs to
+    if not plan['fault']:
+        final_ok = {}
+        for rp in node.replies:
+            if rp['kind'] == 'ok':
+                final_ok[rp['rid']] = rp
+        for i, o in sorted(obs.items()):
+            rp = final_ok.get(i)
+            if rp is None or not o.calls:
+                continue
+            V.check('C09/delivered')
+            c = o.calls[0]
+            if c[2] == 'eb' and c[3][0] == 'OperationTimedOut' and c[1] - rp['t'] > 0.3:
+                V.add('C09/delivered', 'answered-request-timed-out',
+                      'the node answered request %d on %s stream %d at t=%.3f (no connection fault), yet the request was timed out at t=%.3f '
+                      'without ever receiving that response' % (i, rp['conn'], rp['stream'], rp['t'], c[1]))
+    busy_refused = sum(1 for o in obs.values() if o.calls and o.calls[0][2] == 'eb' and 'overloaded' in str(o.calls[0][3][1]))
+    busy_refused += sum(1 for o in obs.values() if o.calls and o.calls[0][2] == 'eb' and o.calls[0][3][0] == 'NoHostAvailable' and mode == 'busy')
+    if busy_refused:
+        sim.probe('send_refused_busy', busy_refused)
+    if mode == 'retry':
+        n_retry = sum(1 for e in node.log if e.get('kind') and e.get('attempt', 0) > 0)
+        if n_retry:
+            sim.probe('same_host_retry', n_retry)
+        if any(e.get('attempt', 0) > 0 and any(c[2] == 'eb' and c[3][0] == 'OperationTimedOut' for c in obs[e['rid']].calls)
+               for e in node.log if e.get('kind') and e.get('rid') in obs):
+            sim.probe('retried_request_timed_out')
     fault_free = not plan['fault'] and not dropped
     if fault_free and conn is not None and status == 'done':
         V.check('C09/drain')
         answered = len(node.replies) == sum(1 for e in node.log if e.get('kind'))
-        if answered and not conn.is_closed and not conn.is_defunct:
-            ids = list(conn.request_ids)
-            if conn.in_flight != 0:
-                V.add('C09/drain', 'in-flight-nonzero', 'after every request was answered in_flight=%d (orphaned=%r)'
-                      % (conn.in_flight, sorted(conn.orphaned_request_ids)[:5]))
-            elif conn.orphaned_request_ids:
-                V.add('C09/drain', 'orphans-left', 'orphaned ids left: %r' % sorted(conn.orphaned_request_ids)[:8])
-            elif len(set(ids)) != len(ids):
-                V.add('C09/drain', 'duplicate-free-ids', 'free id list has duplicates: %r' %
-                      sorted(x for x in set(ids) if ids.count(x) > 1)[:8])
-            elif set(ids) != set(range(conn.highest_request_id + 1)):
-                V.add('C09/drain', 'ids-missing', 'free ids %d of %d' % (len(ids), conn.highest_request_id + 1))
+        if answered:
+            check_drained(V, conn, 'pooled connection')
     for cr in sim.crashes:
         V.add('C09/drain', 'thread-exception', 'thread %s died: %s' % (cr[0], cr[1]))
     nontrivial = timeouts > 0 and len(plan['requests']) > 1
     return {'violations': V.items, 'rules_checked': V.checked, 'nontrivial': bool(nontrivial),
             'faults': dict(w.net.fault_counts), 'states': [w.abstract_state()],
             'summary': {'status': status, 'timeouts': timeouts, 'late': late, 'requests': len(obs)},
-            'stratum': 'drain' if fault_free else 'faulted'}
+            'stratum': mode + ('-drain' if fault_free else '-faulted')}
